@@ -1674,7 +1674,8 @@ class rx:
         self._dirty = False
         if self._method:
             # E.g. `pi = dfi.A` leads to `pi._method` equal to `'A'`.
-            current = getattr(current, self._method, current)
+            if current is not Undefined:
+                current = getattr(current, self._method)
         if hasattr(current, '__call__'):
             self.__call__.__func__.__doc__ = self.__call__.__doc__
         return current
